@@ -119,6 +119,7 @@ type sched struct {
 	Behaviours [][][]interface{} `json:"behaviours"`
 	ConnE1     []string          `json:"connE1"` // c16: listener identities per endpoint
 	ConnE2     []string          `json:"connE2"`
+	ExpConn    []string          `json:"expConn"`
 	Walks      int               `json:"walks"`
 	Par        int               `json:"par"`
 	Expiry     bool              `json:"expiry"`
